@@ -45,7 +45,7 @@ def corpus(tier, seed):
         std_spec("hole2", s + 33, 50, retrain_acceptance=True, reset_acceptance=True, acceptance_threshold=0.3,
                  cooldown=5, memory=10),
     ]
-    specs += [std_spec("rect2", s + 34, 50, reparameterisations={"x1": "rescaletobounds"}),
+    specs += [std_spec("rect2", s + 34, 50, reparameterisations={"c": "rescaletobounds"}),
               std_spec("disc2", s + 35, 50)]
     if tier == "thorough":
         k = 13
